@@ -23,16 +23,7 @@ func c19RestartChild(c *Ctx) {
 	h := &c19Hammer{res: &c19HResult{Rounds: c.N, Counts: map[string]int{}}, out: c.Out, rnd: c.Rnd, seen: map[string]bool{}}
 	h.flush()
 	for r := 0; r < c.N; r++ {
-		func() {
-			defer func() {
-				if x := recover(); x != nil {
-					h.fail(r, "c19/panic", "restart round panicked: "+firstLine(fmt.Sprint(x)))
-				}
-			}()
-			h.restartRound(r)
-		}()
-		h.res.Completed++
-		h.flush()
+		h.runRound("c19-restart", r, func() { h.restartRound(r) })
 	}
 	h.res.Done = true
 	h.flush()
@@ -77,7 +68,7 @@ func (h *c19Hammer) restartRound(round int) {
 		panic(fmt.Sprintf("restart scenario: InsertConfirms(tip): %v", err))
 	}
 	if n.BC.StableBlock().Hash() != tip.Hash() {
-		h.count("restart:round-skipped(tip-not-stable)", 1)
+		h.fail(round, "c19/harness/scenario-guarantee-broken", "restart: the tip did not become stable after the packet with 4 valid confirms")
 		return
 	}
 	want := map[uint32]common.Hash{}
